@@ -178,6 +178,28 @@ def body_adiabatic(env):
             env.eq('adiabatic: gap cell %d untouched' % f, c.coolant_gap_temp[f], T0[f])
 
 
+def body_outer_surface(env):
+    """The duct temperature an assembly offers to the gap (Assembly.duct_outer_surf_temp, read by Reactor.axial_step) is the
+    outer surface of its outermost duct, for 1-3 ducts (the stub assemblies of the other instances carry that vector directly)."""
+    import dassh.assembly as am
+    nduct = env.params['n_duct']
+    nd = 12
+    with env.patch(MODS + [am]):
+        ds = np.empty((nduct, 2, nd), dtype=object)
+        for w in range(nduct):
+            for s_ in range(2):
+                for c in range(nd):
+                    ds[w, s_, c] = env.real('Tsurf_%d_%d_%d' % (w, s_, c), lo=200, hi=3000)
+        if env.mode == 'replay':
+            ds = ds.astype(float)
+        asm = StubSelf(active_region=StubSelf(temp={'duct_surf': ds}))
+        got = am.Assembly.duct_outer_surf_temp.fget(asm)
+        env.holds('one value per outer duct cell', len(got) == nd)
+        for c in range(nd):
+            env.eq('cell %d: the temperature offered to the gap is the outer surface of the outermost duct' % c, got[c], ds[nduct - 1, 1, c],
+                   key='wrong_duct_surface_offered_to_gap')
+
+
 def instances(tier):
     inst = []
     lays = ['one-a2', 'two-a2-a3', 'three-a2-a3-ur', 'three-a3-dd-u6', 'ring-no-centre'] + \
@@ -186,6 +208,8 @@ def instances(tier):
         inst.append(dict(label='gap-step[%s]' % l, body=body_gap, params={'layout': l}, timeout_ms=240000))
         inst.append(dict(label='assembly-side[%s]' % l, body=body_asm_side, params={'layout': l}, timeout_ms=240000))
     inst.append(dict(label='adiabatic[one-a2]', body=body_adiabatic, params={'layout': 'one-a2'}))
+    for nduct in (1, 2, 3):
+        inst.append(dict(label='outer-surface[ducts=%d]' % nduct, body=body_outer_surface, params={'n_duct': nduct}))
     return inst
 
 
